@@ -1,4 +1,4 @@
-import RsMatterVerif.Lemmas.AdminRefs
+import RsMatterVerif.Lemmas.AdminHist
 /-!
 # C11 — persisted state survives a crash and reloads to what was committed
 
@@ -16,10 +16,15 @@ of `hist`" (`Op.crash k`).
 * `factory_reset_empties`: after a factory reset no fabric, network or resumption key is left.
 * `corrupt_resumption_blob_tolerated`: an unparseable resumption blob never prevents start-up; it is
   dropped from the store.
-* `C11_full_crash_prefix` (every crash point lies on an acknowledgement boundary or inside ONE atomic
-  change) is NOT true of the code: CommissioningComplete makes two writes - open findings
-  `C11-complete-crash-between-writes` / `C11-complete-store-failure`.  The provable part is the
-  last clause of `acked_write_is_stored`: a fabric-scoped write mutates the store at most once.
+* `crash_prefix_or_mid_commit`: **every element of the store history** of ANY history (store faults
+  included, factory reset excluded) equals - on the fabric records and the networks - the store at an
+  operation boundary, or is the state between the two writes of a CommissioningComplete.
+  `C11_full_crash_prefix` (always a boundary) is refuted by the replay of the open finding
+  `C11-complete-crash-between-writes` (`C11_full_crash_prefix_false`) and proved under the decidable
+  exclusion `hasTwoWriteComplete … = false` (`crash_prefix_single_write`).
+* `boundary_store_is_committed`: at every operation boundary the store holds exactly what the
+  acknowledgements established for the fabric of an acknowledged write / removal / completion
+  (`acked_write_is_stored`, `acked_removal_is_stored`, `commit_is_joint` of C08).
 -/
 namespace C11
 open Admin
@@ -84,7 +89,7 @@ theorem storeFabric_cases (n : Node) (f : Fabric) :
 /-- the shape every fabric-scoped write has in the model (`acl.rs:306`, `groups.rs:178`, `noc.rs:636`) -/
 def writeResult (n : Node) (f f' : Fabric) : Node × Status :=
   let n1 := setFabric n f'
-  if armedFor n1 f.idx then ok n1
+  if armedFor n1 f.idx then ok (markDeferred n1)
   else match storeFabric n1 f' with
     | (n, true) => ok n
     | (n, false) => (n, .err "NoSpace")
@@ -103,6 +108,7 @@ theorem writeResult_ack (n : Node) (f f' : Fabric) (hidx : f'.idx = f.idx) (hget
   | true =>
     simp only [if_true, ok]
     refine ⟨fun _ h => by simp at h, fun h => absurd rfl h, ?_⟩
+    rw [(markDeferred_fields (setFabric n f')).2.2.2.2]
     show n.hist.length ≤ n.hist.length + 1
     omega
   | false =>
@@ -263,12 +269,152 @@ example : ∃ n : Node, n.failIn = 0 ∧ (∀ f ∈ n.kv.fabs, 1 ≤ f.idx ∧ f
   ⟨{ kv := { fabs := [{ idx := 1, gen := 1, ca := 1, fid := 1, node := 1, ser := 1, acl := [], grp := [], label := 0 }] } },
    rfl, by decide, by decide⟩
 
-/-- The full crash-prefix statement: restarting from ANY element of the store history gives the
-fabrics / networks of the node at some operation boundary.  Not provable for the code as it is
-(CommissioningComplete performs two writes - open findings). -/
+/-! ## every crash point -/
+
+/-- the store at an operation boundary of the history -/
+def Boundary (cfg : Cfg) (all : List Op) (kv : KV) : Prop :=
+  ∃ pre, pre <+: all ∧ KV.Same kv (run cfg {} pre).kv
+
+/-- the `complete s` issued in state `n` performs both its writes -/
+def twoWrites (cfg : Cfg) (n : Node) (s : Nat) : Bool :=
+  decide ((checkTimeouts cfg n (some s)).1.hist.length + 2 ≤ (step cfg n (.complete s)).1.hist.length)
+
+/-- the store between the two writes of a CommissioningComplete of the history: the store at the
+boundary before it with one fabric record written -/
+def MidCommit (cfg : Cfg) (all : List Op) (kv : KV) : Prop :=
+  ∃ pre s f, (pre ++ [.complete s]) <+: all ∧ KV.Same kv ((run cfg {} pre).kv.putFabric f) ∧
+    twoWrites cfg (run cfg {} pre) s = true
+
+theorem crash_aux (cfg : Cfg) (all : List Op) (hno : Op.freset ∉ all) :
+    ∀ (rest pre : List Op), pre ++ rest = all →
+      (∀ kv ∈ (run cfg {} pre).hist, Boundary cfg all kv ∨ MidCommit cfg all kv) →
+      ∀ kv ∈ (run cfg {} all).hist, Boundary cfg all kv ∨ MidCommit cfg all kv := by
+  intro rest
+  induction rest with
+  | nil => intro pre hp h; rw [List.append_nil] at hp; subst hp; exact h
+  | cons op r ih =>
+    intro pre hp h
+    have hp' : (pre ++ [op]) ++ r = all := by rw [← hp]; simp
+    have hop : op ≠ .freset := by
+      intro he
+      apply hno
+      rw [← hp, he]
+      simp
+    refine ih (pre ++ [op]) hp' ?_
+    intro kv hk
+    have hrun : run cfg {} (pre ++ [op]) = (step cfg (run cfg {} pre) op).1 := by
+      rw [run_append]; rfl
+    rw [hrun] at hk
+    have hpre : pre <+: all := ⟨op :: r, hp⟩
+    have hpre' : (pre ++ [op]) <+: all := ⟨r, hp'⟩
+    rcases step_snaps cfg (run cfg {} pre) op hop kv hk with h1 | h1 | h1 | ⟨s, hs, ⟨f, h1⟩, hlen⟩
+    · exact h kv h1
+    · exact Or.inl ⟨pre, hpre, h1⟩
+    · exact Or.inl ⟨pre ++ [op], hpre', by rw [hrun]; exact h1⟩
+    · subst hs
+      exact Or.inr ⟨pre, s, f, hpre', h1, by simp [twoWrites, hlen]⟩
+
+/-- **Every crash point.**  For every history without factory reset - any commands, any sessions,
+store faults at any write, restarts and earlier crashes included - every element of the store
+history (= every state of the store a crash can leave behind) equals, on the fabric records and the
+networks, the store at an operation boundary of the history, or is the state between the two writes
+of a CommissioningComplete. -/
+theorem crash_prefix_or_mid_commit (cfg : Cfg) (ops : List Op) (hno : Op.freset ∉ ops) :
+    ∀ kv ∈ (run cfg {} ops).hist, Boundary cfg ops kv ∨ MidCommit cfg ops kv :=
+  crash_aux cfg ops hno ops [] rfl (fun kv hk => by cases hk)
+
+/-- a restart from a boundary store comes up with exactly the fabrics and networks the node had
+stored at that boundary -/
+theorem restart_from_boundary (cfg : Cfg) (ops : List Op) (n : Node) (kv : KV) (hist : List KV)
+    (hb : Boundary cfg ops kv) :
+    ∃ pre, pre <+: ops ∧ (∀ i, getFabric (restartFrom n kv hist) i = kvF (run cfg {} pre).kv i) ∧
+      (restartFrom n kv hist).kv.nets = (run cfg {} pre).kv.nets := by
+  obtain ⟨pre, hp, hs⟩ := hb
+  have ⟨_, h2, _, _, _, _, h7⟩ := restart_reads_store n kv hist
+  refine ⟨pre, hp, fun i => ?_, by rw [h7]; exact hs.2⟩
+  rw [← hs.1 i]
+  simp only [getFabric, h2, kvF]
+
+/-- all prefixes of a list -/
+def prefixes : List Op → List (List Op)
+  | [] => [[]]
+  | x :: xs => [] :: (prefixes xs).map (x :: ·)
+
+theorem mem_prefixes : ∀ (l p : List Op), p <+: l → p ∈ prefixes l := by
+  intro l
+  induction l with
+  | nil =>
+    intro p hp
+    have : p = [] := List.prefix_nil.mp hp
+    subst this; simp [prefixes]
+  | cons x xs ih =>
+    intro p hp
+    cases p with
+    | nil => simp [prefixes]
+    | cons y ys =>
+      have ⟨hxy, hys⟩ := List.cons_prefix_cons.mp hp
+      subst hxy
+      simp only [prefixes, List.mem_cons, List.mem_map]
+      exact Or.inr ⟨ys, ih ys hys, rfl⟩
+
+/-- decidable, on histories: some CommissioningComplete of the history performs both its writes -/
+def hasTwoWriteComplete (cfg : Cfg) (ops : List Op) : Bool :=
+  (prefixes ops).any (fun p =>
+    match p.reverse with
+    | .complete s :: r => twoWrites cfg (run cfg {} r.reverse) s
+    | _ => false)
+
+/-- **The statement of `C11_full_crash_prefix` under its precise exclusion**: in a history none of
+whose CommissioningCompletes performs both writes (none at all, or a store fault stops them), every
+crash point is an operation boundary. -/
+theorem crash_prefix_single_write (cfg : Cfg) (ops : List Op) (hno : Op.freset ∉ ops)
+    (hex : hasTwoWriteComplete cfg ops = false) :
+    ∀ kv ∈ (run cfg {} ops).hist, Boundary cfg ops kv := by
+  intro kv hk
+  rcases crash_prefix_or_mid_commit cfg ops hno kv hk with h | ⟨pre, s, f, hp, _, htw⟩
+  · exact h
+  · exfalso
+    have hin := mem_prefixes ops _ hp
+    unfold hasTwoWriteComplete at hex
+    rw [List.any_eq_false] at hex
+    have := hex _ hin
+    simp [htw] at this
+
+/-- the full crash-prefix statement: EVERY element of the store history is a boundary store.
+FALSE of the code: CommissioningComplete performs two writes (open finding
+`C11-complete-crash-between-writes`). -/
 def C11_full_crash_prefix : Prop :=
-  ∀ (cfg : Cfg) (ops : List Op), SafeHist cfg {} ops →
-    ∀ kv ∈ (run cfg {} ops).hist, ∃ (pre : List Op), pre <+: ops ∧
-      kvF kv = kvF (run cfg {} pre).kv ∧ kv.nets = (run cfg {} pre).kv.nets
+  ∀ (cfg : Cfg) (ops : List Op), Op.freset ∉ ops → ∀ kv ∈ (run cfg {} ops).hist, Boundary cfg ops kv
+
+/-- the replay of the finding: `… net 0 3 … complete 1` and the store after its first write -/
+def witnessOps : List Op :=
+  [.boot, .pase, .arm 0 60, .net 0 3, .csr 0 false, .root 0 2, .addnoc 0 2 2 10 100 1, .caseEst 1 101 1, .complete 1]
+
+def witnessKv : KV :=
+  match (run {} {} witnessOps).hist with
+  | _ :: kv :: _ => kv
+  | _ => {}
+
+theorem C11_full_crash_prefix_false : ¬ C11_full_crash_prefix := by
+  intro h
+  have hmem : witnessKv ∈ (run {} {} witnessOps).hist := by decide
+  obtain ⟨pre, hp, hs⟩ := h {} witnessOps (by decide) witnessKv hmem
+  have hin : pre ∈ prefixes witnessOps := mem_prefixes witnessOps pre hp
+  have key : ∀ p ∈ prefixes witnessOps,
+      ¬ ((kvF witnessKv 1).isSome = (kvF (run {} {} p).kv 1).isSome ∧ witnessKv.nets = (run {} {} p).kv.nets) := by
+    decide
+  exact key pre hin ⟨by rw [hs.1 1], hs.2⟩
+
+/-- the witness is recognised by the decidable exclusion -/
+example : hasTwoWriteComplete {} witnessOps = true := by decide
+
+/-- the exclusion is satisfiable by a history with a commissioning that reaches the store: the second
+write of CommissioningComplete fails (the first one is then a boundary store: the fabric IS stored
+when the command returns - open finding `C11-complete-store-failure`), a restart follows -/
+example :
+    let ops : List Op := [.boot, .pase, .arm 0 60, .csr 0 false, .root 0 2, .addnoc 0 2 2 10 100 1,
+      .caseEst 1 101 1, .kvfail 2, .complete 1, .restart]
+    Op.freset ∉ ops ∧ hasTwoWriteComplete {} ops = false ∧ (run {} {} ops).hist.length = 1 := by
+  refine ⟨by decide, by decide, by decide⟩
 
 end C11
